@@ -155,12 +155,26 @@ class ReqHarness:
     def __init__(self, seed: str, nd: bool = True, pairs: bool = True) -> None:
         self.noise = seed.startswith("noise:")  # the same exploration over the encrypted transport
         seed = seed.replace("noise:", "")
+        # a transport that recycles its receive buffer, every device chunk arriving in two reads (the first read ends mid-frame)
+        self.recycle = seed.startswith("recycle:")
+        seed = seed.replace("recycle:", "")
+        if self.recycle:
+            nd = False
         self.seed = seed
         self.nd = nd
         self.pairs = pairs
         self.can_fp = True
 
     def fresh(self) -> ReqWorld:
+        from .. import world as _world
+
+        _world.RECYCLE_RX[0] = self.recycle
+        try:
+            return self._fresh()
+        finally:
+            _world.RECYCLE_RX[0] = False
+
+    def _fresh(self) -> ReqWorld:
         w = ReqWorld(self.noise)
         if self.noise:
             w.connect_fully_split()  # one frame per chunk: this check is about what happens to responses, not about the connect phase
@@ -247,6 +261,13 @@ class ReqHarness:
             kind = "io"
             atoms = label[2:].split("+")
             data = b"".join(w.dframe(mk(MSGS[a][0], **MSGS[a][1])) for a in atoms)
+            if self.recycle and len(data) > 3:
+                cut = len(data) // 2 + 1
+                w.chunks.append([])
+                w.io_chunk(w.sock, data[:cut])
+                w.step()
+                w.drain()
+                data = data[cut:]
             w.chunks.append(atoms)
             w.io_chunk(w.sock, data)
         elif label == "eof":
@@ -400,7 +421,7 @@ def run(tier: str, seed: int) -> Result:
     q = tier == "quick"
     cfgs = [("", 4 if q else 5, 1 if q else 2), ("A", 3 if q else 5, 2), ("B", 3 if q else 5, 2), ("AB", 3 if q else 4, 1 if q else 2),
             ("AC", 3 if q else 4, 2), ("ABC", 3 if q else 4, 1 if q else 2), ("BD", 3 if q else 4, 1 if q else 2),
-            ("B.D", 3 if q else 4, 1 if q else 2), ("debug:AB", 3 if q else 4, 1 if q else 2), ("noise:AB", 3 if q else 4, 1 if q else 2)]
+            ("B.D", 3 if q else 4, 1 if q else 2), ("debug:AB", 3 if q else 4, 1 if q else 2), ("noise:AB", 3 if q else 4, 1 if q else 2), ("recycle:AB", 3 if q else 4, 1 if q else 2)]
     budget = 100.0 if q else 1500.0
     t_end = time.monotonic() + budget
     per_cfg = []
